@@ -225,6 +225,21 @@ def check_simplex(run, cx, cfg, tier):
                 ln = e['ops'][0]
                 if not okidx or not (ln[0] == 'int' and ln[1] == 256):
                     bad = 'a permutation-table index is not reduced through `as u8` (index %s, table length %s)' % (short(idx)[:80], short(ln))
+    # no arithmetic overflow check can fire: the phase lies in [0, 65536), so floor(phase) + 1 <= 65536 must fit the integer
+    # type the corner coordinate is computed in (with debug assertions an overflow is a panic, not an output in [-1, 1])
+    WIDE = ('i32', 'u32', 'i64', 'u64', 'i128', 'u128', 'isize', 'usize')
+    if not bad:
+        for p in cx.paths(fn, stop_trait_methods=STOP):
+            for e in p['events']:
+                if e['kind'] == 'assert' and str(e['msg']).startswith('Overflow'):
+                    c = e['cond']
+                    a = c[2] if c[0] == 'ovf' else None
+                    okov = (a is not None and c[1] == 'Add' and c[3][0] == 'int' and c[3][1] == 1 and a[0] == 'cast' and a[1] == 'FloatToInt' and a[3] in WIDE
+                            and a[2][0] == 'app' and a[2][1].rsplit('::', 1)[-1] in ('floor', 'floorf64'))
+                    if not okov:
+                        bad = 'an overflow check (%s on %s) can fire for a phase in [0, 65536): with debug assertions the call panics instead of returning a sample' % (e['msg'], short(c)[:120])
+            if bad:
+                break
     nb = sum(1 for e in (ps[0]['events'] if ps else []) if e['kind'] == 'assert' and e['msg'] == 'BoundsCheck')
     if not bad and nb < 2:
         bad = 'expected two table look-ups'
